@@ -28,10 +28,59 @@ import (
 type c08Plan struct {
 	tr     *ifTr
 	locals map[string]bool
+	void   bool              // the function has no result: `return` and the end of the body are leaves
+	alias  map[string]string // local name -> field of r it was copied from (`cli := r.replicaStream`)
+	resp   string            // name of the variable holding the answer of `.Recv()` (its fields are three integers)
+}
+
+// rn rewrites the fields of the received answer into the three integers bound by `Hs.recv`:
+// `resp.ReplicaIndex`, `resp.AckIndex`, and `resp.Err == ""` as `respErr = 0`.
+func (p *c08Plan) rn(e ast.Expr) ast.Expr {
+	if p.resp == "" {
+		return e
+	}
+	switch types.ExprString(e) {
+	case p.resp + ".ReplicaIndex":
+		return ast.NewIdent("respReplicaIndex")
+	case p.resp + ".AckIndex":
+		return ast.NewIdent("respAckIndex")
+	case p.resp + `.Err == ""`:
+		return &ast.BinaryExpr{X: ast.NewIdent("respErr"), Op: token.EQL, Y: &ast.BasicLit{Kind: token.INT, Value: "0"}}
+	case p.resp + `.Err != ""`:
+		return &ast.BinaryExpr{X: ast.NewIdent("respErr"), Op: token.NEQ, Y: &ast.BasicLit{Kind: token.INT, Value: "0"}}
+	}
+	switch x := e.(type) {
+	case *ast.BinaryExpr:
+		return &ast.BinaryExpr{X: p.rn(x.X), Op: x.Op, Y: p.rn(x.Y)}
+	case *ast.ParenExpr:
+		return &ast.ParenExpr{X: p.rn(x.X)}
+	case *ast.UnaryExpr:
+		return &ast.UnaryExpr{Op: x.Op, X: p.rn(x.X)}
+	}
+	return e
+}
+
+// recvCall: a call on r or on a local copy of one of r's fields; the name is spelled with the field.
+func (p *c08Plan) recvCall(e ast.Expr) (*ast.CallExpr, string) {
+	c, ok := e.(*ast.CallExpr)
+	if !ok {
+		return nil, ""
+	}
+	name := types.ExprString(c.Fun)
+	if i := strings.IndexByte(name, '.'); i > 0 {
+		if full, ok := p.alias[name[:i]]; ok {
+			name = full + name[i:]
+		}
+	}
+	if !strings.HasPrefix(name, "r.") {
+		return nil, ""
+	}
+	return c, name
 }
 
 // intExpr translates e when it is an integer expression over the locals bound so far.
 func (p *c08Plan) intExpr(e ast.Expr) (string, bool) {
+	e = p.rn(e)
 	ok := true
 	ast.Inspect(e, func(n ast.Node) bool {
 		switch x := n.(type) {
@@ -119,15 +168,21 @@ func c08Cat(a, b []ast.Stmt) []ast.Stmt {
 // emit translates the statement list (executed to its end or to the first return) with `cur` the
 // last state stored on the path.
 func (p *c08Plan) emit(stmts []ast.Stmt, cur string, d int) (string, error) {
+	in := ind(d)
 	if len(stmts) == 0 {
+		if p.void {
+			return fmt.Sprintf("%s(Hs.ret %q true)", in, cur), nil
+		}
 		return "", fmt.Errorf("handshake: a path ends without return")
 	}
 	st, rest := stmts[0], stmts[1:]
-	in := ind(d)
 	switch x := st.(type) {
 	case *ast.DeferStmt:
 		return p.emit(rest, cur, d)
 	case *ast.ReturnStmt:
+		if p.void && len(x.Results) == 0 {
+			return fmt.Sprintf("%s(Hs.ret %q true)", in, cur), nil
+		}
 		if len(x.Results) != 1 {
 			return "", fmt.Errorf("handshake: return with %d results", len(x.Results))
 		}
@@ -137,7 +192,7 @@ func (p *c08Plan) emit(stmts []ast.Stmt, cur string, d int) (string, error) {
 		}
 		return fmt.Sprintf("%s(Hs.ret %q %s)", in, cur, b), nil
 	case *ast.ExprStmt:
-		c, name := c08RecvCall(x.X)
+		c, name := p.recvCall(x.X)
 		if c == nil {
 			return "", fmt.Errorf("handshake: unsupported statement %s", types.ExprString(x.X))
 		}
@@ -165,9 +220,20 @@ func (p *c08Plan) emit(stmts []ast.Stmt, cur string, d int) (string, error) {
 		if len(x.Lhs) == 1 && strings.HasPrefix(types.ExprString(x.Lhs[0]), "r.") && x.Tok == token.ASSIGN {
 			return p.emit(rest, cur, d)
 		}
+		// cli := r.field   — a local copy of a field of r
+		if len(x.Lhs) == 1 && len(x.Rhs) == 1 && x.Tok == token.DEFINE {
+			if sel, ok := x.Rhs[0].(*ast.SelectorExpr); ok && strings.HasPrefix(types.ExprString(sel), "r.") {
+				p.alias[types.ExprString(x.Lhs[0])] = types.ExprString(sel)
+				return p.emit(rest, cur, d)
+			}
+		}
+		// err := r.X(...) ; if err != nil { ... }   — an rpc without result
+		if len(x.Lhs) == 1 && len(x.Rhs) == 1 && types.ExprString(x.Lhs[0]) == "err" {
+			x = &ast.AssignStmt{Lhs: []ast.Expr{ast.NewIdent("_"), x.Lhs[0]}, Tok: x.Tok, Rhs: x.Rhs}
+		}
 		// v, err := r.X(...) ; if err != nil { ... }   — an rpc with its error branch
 		if len(x.Lhs) == 2 && len(x.Rhs) == 1 && types.ExprString(x.Lhs[1]) == "err" {
-			c, name := c08RecvCall(x.Rhs[0])
+			c, name := p.recvCall(x.Rhs[0])
 			if c == nil || len(rest) == 0 {
 				return "", fmt.Errorf("handshake: unsupported assignment %s", types.ExprString(x.Rhs[0]))
 			}
@@ -184,6 +250,16 @@ func (p *c08Plan) emit(stmts []ast.Stmt, cur string, d int) (string, error) {
 				return "", err
 			}
 			v := types.ExprString(x.Lhs[0])
+			if strings.HasSuffix(name, ".Recv") && v != "_" {
+				// the answer: three integers (ReplicaIndex, AckIndex, Err as 0 = "")
+				p.resp = v
+				p.locals["respReplicaIndex"], p.locals["respAckIndex"], p.locals["respErr"] = true, true, true
+				k, err := p.emit(rest[1:], cur, d+2)
+				if err != nil {
+					return "", err
+				}
+				return fmt.Sprintf("%s(Hs.recv %q\n%s\n%s  (fun respReplicaIndex respAckIndex respErr =>\n%s))", in, name, onErr, in, k), nil
+			}
 			bind := "_"
 			var k string
 			if v != "_" {
@@ -199,7 +275,7 @@ func (p *c08Plan) emit(stmts []ast.Stmt, cur string, d int) (string, error) {
 		}
 		if len(x.Lhs) == 1 && len(x.Rhs) == 1 && x.Tok == token.DEFINE {
 			v := types.ExprString(x.Lhs[0])
-			if c, name := c08RecvCall(x.Rhs[0]); c != nil && len(c.Args) == 0 {
+			if c, name := p.recvCall(x.Rhs[0]); c != nil && len(c.Args) == 0 {
 				k, err := p.withLocal(v, func() (string, error) { return p.emit(rest, cur, d+1) })
 				if err != nil {
 					return "", err
@@ -280,6 +356,7 @@ func (p *c08Plan) emitCases(cases []ast.Stmt, rest []ast.Stmt, cur string, d int
 }
 
 func (p *c08Plan) intCond(e ast.Expr) (string, bool) {
+	e = p.rn(e)
 	ok := true
 	ast.Inspect(e, func(n ast.Node) bool {
 		switch x := n.(type) {
@@ -338,7 +415,7 @@ func c08HandshakePlan(isReady *ast.FuncDecl) (string, error) {
 	if start < 0 {
 		return "", fmt.Errorf("handshake: `r.closeStream()` is not a top-level statement of IsReady")
 	}
-	p := &c08Plan{tr: &ifTr{}, locals: map[string]bool{}}
+	p := &c08Plan{tr: &ifTr{}, locals: map[string]bool{}, alias: map[string]string{}}
 	body, err := p.emit(isReady.Body.List[start:], "?", 1)
 	if err != nil {
 		return "", err
@@ -349,8 +426,36 @@ func c08HandshakePlan(isReady *ast.FuncDecl) (string, error) {
 	sb.WriteString("  | ret (state : String) (result : Bool) : Hs\n")
 	sb.WriteString("  | call (name : String) (arg : Int) (k : Hs) : Hs\n")
 	sb.WriteString("  | read (name : String) (k : Int → Hs) : Hs\n")
-	sb.WriteString("  | rpc (name : String) (arg : Int) (onErr : Hs) (k : Int → Hs) : Hs\n\n")
+	sb.WriteString("  | rpc (name : String) (arg : Int) (onErr : Hs) (k : Int → Hs) : Hs\n")
+	sb.WriteString("  | recv (name : String) (onErr : Hs) (k : Int → Int → Int → Hs) : Hs\n\n")
 	sb.WriteString("set_option linter.unusedVariables false in\n")
 	sb.WriteString("def handshakePlan : Hs :=\n" + body + "\n\n")
 	return sb.String(), nil
+}
+
+// c08ReplicaPlan emits `replicaPlan (idx : Int) : Hs` for `remoteReplicator.Replica(idx, msg)`: the whole body
+// (Send with its error branch, Recv with its error branch, the test on the answer, SetAckIndex with its argument,
+// the state stored on each path; "unchanged" = no state.Store on the path).
+func c08ReplicaPlan(replica *ast.FuncDecl) (string, error) {
+	if replica == nil || replica.Body == nil {
+		return "", fmt.Errorf("replica plan: Replica not found")
+	}
+	if replica.Type.Results != nil && len(replica.Type.Results.List) > 0 {
+		return "", fmt.Errorf("replica plan: Replica has results now")
+	}
+	var params []string
+	for _, fl := range replica.Type.Params.List {
+		for _, n := range fl.Names {
+			params = append(params, n.Name)
+		}
+	}
+	if len(params) != 2 {
+		return "", fmt.Errorf("replica plan: Replica has %d parameters", len(params))
+	}
+	p := &c08Plan{tr: &ifTr{}, locals: map[string]bool{params[0]: true}, alias: map[string]string{}, void: true}
+	body, err := p.emit(replica.Body.List, "unchanged", 1)
+	if err != nil {
+		return "", fmt.Errorf("replica plan: %w", err)
+	}
+	return "set_option linter.unusedVariables false in\ndef replicaPlan (" + leanIdent(params[0]) + " : Int) : Hs :=\n" + body + "\n\n", nil
 }
